@@ -437,6 +437,8 @@ func body(c *kernel.Ctx) {
 	st.nEpochs = 2 + verifrt.Intn("cfg", maxEpochs-1)
 	st.seed = uint64(verifrt.Intn("cfg", 64))
 	st.faulty = verifrt.Intn("cfg", 4) == 3
+	focusKind := verifrt.Intn("cfg", nKinds)
+	focusEp := verifrt.Intn("cfg", st.nEpochs)
 	for k := 0; k < nKinds; k++ {
 		for e := 0; e < st.nEpochs; e++ {
 			for v := 0; v <= maxVer; v++ {
@@ -466,15 +468,20 @@ func body(c *kernel.Ctx) {
 				if d := verifrt.Intn("w", 3); d > 0 {
 					verifrt.Sleep(time.Duration(d) * time.Millisecond)
 				}
-				switch x := verifrt.Intn("w", 10); {
-				case x <= 5 || x == 9:
+				switch x := verifrt.Intn("w", 12); {
+				case x <= 7 || x == 11:
 					o := &op{typ: opRead, client: cl}
-					if last != nil && x == 9 {
+					if last != nil && x == 11 {
 						// identical repeat of this client's previous request
 						o.kind, o.ep, o.req = last.kind, last.ep, slices.Clone(last.req)
 					} else {
-						o.kind = verifrt.Intn("w", nKinds)
-						o.ep = verifrt.Intn("w", st.nEpochs)
+						// two extra outcomes select the run's focus kind/epoch so that hits and amends are frequent
+						if o.kind = verifrt.Intn("w", nKinds+2); o.kind >= nKinds {
+							o.kind = focusKind
+						}
+						if o.ep = verifrt.Intn("w", st.nEpochs+2); o.ep >= st.nEpochs {
+							o.ep = focusEp
+						}
 						mask := 1 + verifrt.Intn("w", (1<<st.nVals)-1)
 						rot := verifrt.Intn("w", st.nVals)
 						for j := 0; j < st.nVals; j++ {
@@ -486,7 +493,7 @@ func body(c *kernel.Ctx) {
 					last = o
 					doRead(c, ctx, st, cache, o)
 					reads++
-				case x == 6:
+				case x == 8:
 					e := verifrt.Intn("w", st.nEpochs+1) - 1 // reorged back to epoch0+e: epochs after it change
 					st.mu.Lock()
 					can := st.reorgs < maxVer
@@ -510,7 +517,7 @@ func body(c *kernel.Ctx) {
 					doClear(ctx, st, cl, fmt.Sprintf("InvalidateCache(e%d)", epoch0+e), func(k int) bool { return k > e }, func() {
 						cache.InvalidateCache(ctx, eth2p0.Epoch(epoch0+e))
 					})
-				case x == 7:
+				case x == 9:
 					e := verifrt.Intn("w", st.nEpochs+1) - 1
 					doClear(ctx, st, cl, fmt.Sprintf("InvalidateCache(e%d)", epoch0+e), func(k int) bool { return k > e }, func() {
 						cache.InvalidateCache(ctx, eth2p0.Epoch(epoch0+e))
@@ -705,8 +712,8 @@ func doRead(c *kernel.Ctx, ctx context.Context, st *runState, cache *eth2wrap.Du
 			if o.m[i]>>o.minVer == 0 {
 				o.skip = true
 				st.flagged[o.kind][o.ep] = true
-				c.Violate("C20", "fresh-after-invalidate", "stale-duties-after-invalidation-returned", "client %d %s (%s, fetched from beacon: %v): duties returned for validator %d are [%s] = beacon version %s, but an invalidation of epoch %d had RETURNED before this request was invoked when the beacon was already at version %d (now %d)",
-					o.client, o.label, class, fetchedList(o), i, o.ans[i], vers(o.m[i]), epoch, o.minVer, verNow)
+				c.Violate("C20", "fresh-after-invalidate", "stale-duties-after-invalidation-returned", "client %d %s (%s, fetched from beacon: %v): duties returned for validator %d are [%s] = beacon version %s, but an invalidation of epoch %d had RETURNED before this request was invoked when the beacon was already at version %d; the beacon (now version %d) answers [%s]",
+					o.client, o.label, class, fetchedList(o), i, o.ans[i], vers(o.m[i]), epoch, o.minVer, verNow, st.tab[o.kind][o.ep][verNow][i])
 			}
 		}
 	}
